@@ -58,7 +58,7 @@ harness!(name=c08_moments_3, prop=C08, mode=R, kind=normal, tier=quick, unwind=5
 harness!(name=c08_moments_4, prop=C08, mode=R, kind=normal, tier=quick, unwind=6, { moments::<4>() });
 harness!(name=c08_moments_5, prop=C08, mode=R, kind=normal, tier=quick, unwind=7, { moments::<5>() });
 harness!(name=c08_moments_6, prop=C08, mode=R, kind=normal, tier=quick, unwind=8, { moments::<6>() });
-harness!(name=c08_moments_8, prop=C08, mode=R, kind=normal, tier=thorough, unwind=10, { moments::<8>() });
+harness!(name=c08_moments_8, prop=C08, mode=R, kind=normal, tier=quick, unwind=10, { moments::<8>() });
 
 // @bound c08_cov_: paired data of length N (instance), every real x, y
 // @claim c08_cov_: the four covariance functions equal the textbook population/sample covariance (R)
@@ -87,10 +87,10 @@ harness!(name=c08_cov_onepass_5, prop=C08, mode=R, kind=normal, tier=quick, unwi
 harness!(name=c08_cov_online_2, prop=C08, mode=R, kind=normal, tier=quick, unwind=4, { cov::<2>(3) });
 harness!(name=c08_cov_online_3, prop=C08, mode=R, kind=normal, tier=quick, unwind=5, { cov::<3>(3) });
 harness!(name=c08_cov_online_5, prop=C08, mode=R, kind=normal, tier=quick, unwind=7, { cov::<5>(3) });
-harness!(name=c08_cov_pop_8, prop=C08, mode=R, kind=normal, tier=thorough, unwind=10, { cov::<8>(0) });
+harness!(name=c08_cov_pop_8, prop=C08, mode=R, kind=normal, tier=quick, unwind=10, { cov::<8>(0) });
 harness!(name=c08_cov_sample_8, prop=C08, mode=R, kind=normal, tier=thorough, unwind=10, { cov::<8>(1) });
 harness!(name=c08_cov_onepass_8, prop=C08, mode=R, kind=normal, tier=thorough, unwind=10, { cov::<8>(2) });
-harness!(name=c08_cov_online_8, prop=C08, mode=R, kind=normal, tier=thorough, unwind=10, { cov::<8>(3) });
+harness!(name=c08_cov_online_8, prop=C08, mode=R, kind=normal, tier=quick, unwind=10, { cov::<8>(3) });
 
 // @bound c08_relations_: length N, two-run relations with symbolic shift c and scales a, b
 // @claim c08_relations_: var(x+c)=var(x), var(ax)=a^2 var(x), cov(ax,by)=ab cov(x,y), cov(x+c,y)=cov(x,y) (R)
@@ -161,7 +161,7 @@ harness!(name=c08_order_2, prop=C08, mode=R, kind=normal, tier=quick, unwind=4, 
 harness!(name=c08_order_3, prop=C08, mode=R, kind=normal, tier=quick, unwind=5, { order::<3>() });
 harness!(name=c08_order_4, prop=C08, mode=R, kind=normal, tier=quick, unwind=6, { order::<4>() });
 harness!(name=c08_order_6, prop=C08, mode=R, kind=normal, tier=quick, unwind=8, { order::<6>() });
-harness!(name=c08_order_9, prop=C08, mode=R, kind=normal, tier=thorough, unwind=11, { order::<9>() });
+harness!(name=c08_order_9, prop=C08, mode=R, kind=normal, tier=quick, unwind=11, { order::<9>() });
 
 // @bound c08_hist_: N bin edges (instance), symbolic and not necessarily uniform
 // @claim c08_hist_: centre i equals (e[i]+e[i+1])/2 and there are N-1 centres (R)
@@ -179,4 +179,4 @@ fn hist<const N: usize>() {
 harness!(name=c08_hist_2, prop=C08, mode=R, kind=normal, tier=quick, unwind=4, { hist::<2>() });
 harness!(name=c08_hist_3, prop=C08, mode=R, kind=normal, tier=quick, unwind=5, { hist::<3>() });
 harness!(name=c08_hist_4, prop=C08, mode=R, kind=normal, tier=quick, unwind=6, { hist::<4>() });
-harness!(name=c08_hist_6, prop=C08, mode=R, kind=normal, tier=thorough, unwind=8, { hist::<6>() });
+harness!(name=c08_hist_6, prop=C08, mode=R, kind=normal, tier=quick, unwind=8, { hist::<6>() });
